@@ -1,6 +1,6 @@
 (* C02 - a published message reaches the wire intact and correctly framed.
    This file only pins statements. *)
-From Amq Require Import Lib.Base Gen.Consts Model.Publish Proofs.Publish.
+From Amq Require Import Lib.Base Gen.Consts Model.Publish Proofs.Publish Gen.Src Proofs.PublishSrc.
 
 (* for EVERY body and every positive payload limit: the body frames' payloads concatenate to exactly the body *)
 Theorem C02_concat : forall (fm : N) (body : bytes), 0 < fm -> concat (body_chunks fm body) = body.
@@ -34,6 +34,10 @@ Proof. exact payload_limit_pos. Qed.
 Theorem C02_publish : forall (frame_max : N) (p : publish), frame_max = 0 \/ c_frame_min_size <= frame_max -> exists bodies : list bytes, publish_frames frame_max p = PMethod (p_exchange p) (p_rk p) (p_mandatory p) (p_immediate p) :: PHeader 60 (N.of_nat (length (p_body p))) (p_props p) :: map PBody bodies /\ concat bodies = p_body p /\ Forall (fun c : list N => c <> []) bodies /\ (p_body p = [] -> bodies = []).
 Proof. exact publish_frames_spec. Qed.
 
+(* THE MODEL IS THE SOURCE, for the body limit: Channel0Handle::new (src/io_loop/channel_handle.rs) is translated into coq/Gen/Src.v on every run by tools/rs2v.py, and what it stores as the handle's frame_max is exactly the model's payload_limit (0 = no limit; the frame overhead from the compiled crate taken off) for every value; C02_frame_size is about that limit *)
+Theorem C02_limit_source_is_model : forall frame_max : N, gen_Channel0Handle_new frame_max = RsOk (String.String (Ascii.Ascii true true false false false false true false) (String.String (Ascii.Ascii false false false true false true true false) (String.String (Ascii.Ascii true false false false false true true false) (String.String (Ascii.Ascii false true true true false true true false) (String.String (Ascii.Ascii false true true true false true true false) (String.String (Ascii.Ascii true false true false false true true false) (String.String (Ascii.Ascii false false true true false true true false) (String.String (Ascii.Ascii false false false false true true false false) (String.String (Ascii.Ascii false false false true false false true false) (String.String (Ascii.Ascii true false false false false true true false) (String.String (Ascii.Ascii false true true true false true true false) (String.String (Ascii.Ascii false false true false false true true false) (String.String (Ascii.Ascii false false true true false true true false) (String.String (Ascii.Ascii true false true false false true true false) String.EmptyString)))))))))))))) [(String.String (Ascii.Ascii false true true false false true true false) (String.String (Ascii.Ascii false true false false true true true false) (String.String (Ascii.Ascii true false false false false true true false) (String.String (Ascii.Ascii true false true true false true true false) (String.String (Ascii.Ascii true false true false false true true false) (String.String (Ascii.Ascii true true true true true false true false) (String.String (Ascii.Ascii true false true true false true true false) (String.String (Ascii.Ascii true false false false false true true false) (String.String (Ascii.Ascii false false false true true true true false) String.EmptyString)))))))), payload_limit frame_max)].
+Proof. exact limit_source_is_model. Qed.
+
 (* non-vacuity: a 10-byte body with frame_max 4096 is one frame; 4089 bytes are two (4088 + 1) *)
 Example C02_example :
   map (fun c => N.of_nat (length c)) (body_chunks (payload_limit 4096) (repeat 7 4089)) = [4088; 1] /\
@@ -48,6 +52,7 @@ Check C02_count : forall (fm : N) (body : bytes), 0 < fm -> N.of_nat (length (bo
 Check C02_frame_size : forall (frame_max : N) (body : bytes), c_frame_min_size <= frame_max -> Forall (fun c : list N => N.of_nat (length c) + c_frame_overhead <= frame_max) (body_chunks (payload_limit frame_max) body).
 Check C02_limit_pos : forall frame_max : N, frame_max = 0 \/ c_frame_min_size <= frame_max -> 0 < payload_limit frame_max.
 Check C02_publish : forall (frame_max : N) (p : publish), frame_max = 0 \/ c_frame_min_size <= frame_max -> exists bodies : list bytes, publish_frames frame_max p = PMethod (p_exchange p) (p_rk p) (p_mandatory p) (p_immediate p) :: PHeader 60 (N.of_nat (length (p_body p))) (p_props p) :: map PBody bodies /\ concat bodies = p_body p /\ Forall (fun c : list N => c <> []) bodies /\ (p_body p = [] -> bodies = []).
+Check C02_limit_source_is_model : forall frame_max : N, gen_Channel0Handle_new frame_max = RsOk (String.String (Ascii.Ascii true true false false false false true false) (String.String (Ascii.Ascii false false false true false true true false) (String.String (Ascii.Ascii true false false false false true true false) (String.String (Ascii.Ascii false true true true false true true false) (String.String (Ascii.Ascii false true true true false true true false) (String.String (Ascii.Ascii true false true false false true true false) (String.String (Ascii.Ascii false false true true false true true false) (String.String (Ascii.Ascii false false false false true true false false) (String.String (Ascii.Ascii false false false true false false true false) (String.String (Ascii.Ascii true false false false false true true false) (String.String (Ascii.Ascii false true true true false true true false) (String.String (Ascii.Ascii false false true false false true true false) (String.String (Ascii.Ascii false false true true false true true false) (String.String (Ascii.Ascii true false true false false true true false) String.EmptyString)))))))))))))) [(String.String (Ascii.Ascii false true true false false true true false) (String.String (Ascii.Ascii false true false false true true true false) (String.String (Ascii.Ascii true false false false false true true false) (String.String (Ascii.Ascii true false true true false true true false) (String.String (Ascii.Ascii true false true false false true true false) (String.String (Ascii.Ascii true true true true true false true false) (String.String (Ascii.Ascii true false true true false true true false) (String.String (Ascii.Ascii true false false false false true true false) (String.String (Ascii.Ascii false false false true true true true false) String.EmptyString)))))))), payload_limit frame_max)].
 
 Print Assumptions C02_concat.
 Print Assumptions C02_sizes.
@@ -57,4 +62,5 @@ Print Assumptions C02_count.
 Print Assumptions C02_frame_size.
 Print Assumptions C02_limit_pos.
 Print Assumptions C02_publish.
+Print Assumptions C02_limit_source_is_model.
 Print Assumptions C02_example.
